@@ -1,12 +1,24 @@
 import MdkVerif.Model.CrashCore
+import MdkVerif.Model.CrashSeq
 /- `mdkdrv crashcore`: prints, per call kind, the sequence of crash classes the model assigns along the
-   storage effects of the call; `vlib/crashweng.py` compares it with the sequence observed on the real code. -/
+   storage effects of the call; `vlib/crashweng.py` compares it with the sequence observed on the real code.
+   Lines:  `<callkind> <class,class,…>`            the four calls of Model.CrashCore (proved for every store)
+           `seq <callkind> <case> <path> <classes>` every classified case / path of the regenerated table (Model.CrashSeq)
+           `open <mechanism>:<callkind>`            the open mechanisms (Props/C12.lean `unrecoverable_signatures`) -/
 namespace Driver.CrashCoreDrv
-open MdkVerif.CrashCore
+open MdkVerif MdkVerif.CrashCore
 
 def main : IO Unit := do
   for (name, k) in [("process_application", Kind.application), ("process_commit", Kind.commit),
                     ("process_welcome", Kind.welcome), ("merge_pending_commit", Kind.merge)] do
     IO.println s!"{name} {",".intercalate (classes k)}"
+  for (case, paths) in Generated.writeSeq do
+    if CrashSeq.modelled case then
+      let mut pi := 0
+      for p in paths do
+        IO.println s!"seq {CrashSeq.callKindName (CrashSeq.callKind case)} {case} {pi} {",".intercalate (CrashSeq.classesOf case p)}"
+        pi := pi + 1
+  for (c, k) in CrashSeq.openSignatures do
+    IO.println s!"open {c.name}:{CrashSeq.callKindName k}"
 
 end Driver.CrashCoreDrv
